@@ -273,6 +273,10 @@ impl RefDecoder {
     pub fn new() -> Self {
         Self::default()
     }
+    /// inside an escape sequence that has not seen its final byte yet
+    pub fn in_csi(&self) -> bool {
+        self.in_csi
+    }
     pub fn state_class(&self) -> u64 {
         (self.in_csi as u64)
             | (self.esc_pending as u64) << 1
